@@ -217,8 +217,20 @@ def rule_lane_forms(ctx, prog, rule="R15"):
             st = c.term(sbb)
             if st["k"] == "switch":
                 de = strip(c.switch_discr_expr(sbb))
-                if isinstance(de, tuple) and de[0] == "call" and de[1] == "is_empty" and strip(de[3][0]) == stripped:
-                    sw = (sbb, st)
+                neg = False
+                while isinstance(de, tuple) and de[0] == "unop" and de[1] == "Not":
+                    neg = not neg
+                    de = strip(de[2])
+                f0 = [tgt for v, tgt in st["arms"] if v == 0]
+                if isinstance(de, tuple) and de[0] == "call" and de[1] == "is_empty" and strip(de[3][0]) == stripped and f0:
+                    sw = (sbb, st, f0[0], st["otherwise"]) if not neg else (sbb, st, st["otherwise"], f0[0])
+                elif isinstance(de, tuple) and de[0] == "binop" and de[1] in ("Eq", "Ne") and strip(de[3]) == ("const", "usize", 0) and f0 and \
+                        isinstance(strip(de[2]), tuple) and strip(de[2])[0] == "call" and strip(de[2])[1] == "len" and strip(strip(de[2])[3][0]) == stripped:
+                    flip = neg != (de[1] == "Ne")
+                    sw = (sbb, st, f0[0], st["otherwise"]) if not flip else (sbb, st, st["otherwise"], f0[0])
+                elif isinstance(de, tuple) and de[0] == "call" and de[1] == "len" and strip(de[3][0]) == stripped and f0 and st.get("discr_ty") != "bool":
+                    # `match stripped.len() { 0 => None, _ => Some(..) }`
+                    sw = (sbb, st, st["otherwise"], f0[0])
         if sw is None:
             # `bool::then` form:  from_not_nan_opt((!stripped.is_empty()).then(|| stripped.quantile_axis_mut(Axis(0), q, i).unwrap().into_scalar()))
             r = strip(c.return_expr())
@@ -257,9 +269,7 @@ def rule_lane_forms(ctx, prog, rule="R15"):
             if not detail.startswith("then-form"):
                 detail = "no is_empty() branch on the stripped lane"
             continue
-        sbb, st = sw
-        f = [tgt for v, tgt in st["arms"] if v == 0][0]
-        tr = st["otherwise"]
+        sbb, st, f, tr = sw          # f: successor taken for a non-empty stripped lane, tr: for an empty one
         # quantile call on the non-empty branch with the caller's q and strategy
         qc = [(cbb, ct) for cbb, ct in c.calls() if callee_name(ct) in ("quantile_axis_mut", "quantile_mut")]
         good = False
